@@ -368,3 +368,46 @@ def flatten_conditions(conds: List[Tuple[ast.expr, bool]]) -> List[Tuple[ast.exp
         else:
             out.append((e, pol))
     return out
+
+
+def own_expr(nd: Node) -> Optional[ast.AST]:
+    """The part of the source evaluated AT this CFG node (not the bodies of compound statements)."""
+    a = nd.ast
+    if a is None:
+        return None
+    if isinstance(a, (ast.If, ast.While)):
+        return a.test
+    if isinstance(a, (ast.For, ast.AsyncFor)):
+        return a.iter
+    if isinstance(a, (ast.With, ast.AsyncWith)):
+        return ast.Tuple(elts=[i.context_expr for i in a.items], ctx=ast.Load())
+    if isinstance(a, ast.ExceptHandler):
+        return a.type
+    if isinstance(a, (ast.FunctionDef, ast.AsyncFunctionDef, ast.ClassDef)):
+        return None
+    return a
+
+
+def returns_not_passing(fn: ast.AST, pred: Callable[[ast.AST], bool]) -> List[ast.AST]:
+    """Return statements (and the implicit fall-off exit) reachable from the
+    entry without first passing a statement satisfying pred(stmt_ast).
+    Used for 'recomputed on every call' rules: a path that returns without the
+    primary computation is a memoised / short-cut path."""
+    cfg = CFG(fn)
+
+    def p(nd: Node) -> bool:
+        o = own_expr(nd)
+        return o is not None and pred(o)
+
+    bad: List[ast.AST] = []
+    for nd in cfg.nodes:
+        if isinstance(nd.ast, ast.Return):
+            if p(nd):
+                continue
+            if not cfg.must_pass(nd.id, p):
+                bad.append(nd.ast)
+    # implicit return
+    fall = [a for a in cfg.pred[cfg.exit.id] if not isinstance(cfg.nodes[a].ast, ast.Return)]
+    if fall and not cfg.must_pass(cfg.exit.id, lambda nd: p(nd) or isinstance(nd.ast, ast.Return)):
+        bad.append(fn)
+    return bad
